@@ -108,6 +108,8 @@ func main() {
 
 	w := world.New(fmt.Sprintf("C02-%d", si))
 	defer w.Close()
+	// every other worker process has a responder that delivers each answer in two pieces
+	w.OCSP.Fragment.Store(si%2 == 1)
 	// https responder with a certificate nobody trusts
 	tlsSrv := httptest.NewUnstartedServer(http.HandlerFunc(func(rw http.ResponseWriter, r *http.Request) { rw.WriteHeader(200) }))
 	tlsSrv.TLS = &tls.Config{}
